@@ -52,4 +52,28 @@ def nontrivial(case, inp, obs):
     return json.dumps([case["bpe"], key])
 
 
-PARTS = [Part("ids", "c01", "vsc", gen, nontrivial=nontrivial, describe=describe)]
+KNOWN_CURRENT_ID = "C12-current-id-accepted"
+
+
+def known(case, inp, implobs, modelobs, mon):
+    """Matches the known finding exactly: the model still mirrors the code (no correspondence difference), the only
+    failing monitor clause is 18, and every accepted never-issued slash-packet id is precisely the provider's CURRENT
+    valset update id at that moment.  Any other never-issued id being accepted (current+1, ...) does not match."""
+    if not mon or sorted(set(mon)) != [18]:
+        return None
+    if implobs != modelobs or not inp or len(inp) < 2:
+        return None
+    offending = 0
+    for inst, st in base._streams(inp, implobs):
+        vid = inst[1]
+        for op, o in st:
+            if op[0] == 1:
+                vid = o[0]
+            elif op[0] == 9 and o[0] == 0 and op[1] >= vid:
+                if op[1] != vid:
+                    return None
+                offending += 1
+    return KNOWN_CURRENT_ID if offending else None
+
+
+PARTS = [Part("ids", "c01", "vsc", gen, nontrivial=nontrivial, describe=describe, known=known)]
